@@ -23,6 +23,8 @@ CONSTANTS
   WFault = FALSE
   TimeoutCarriesOver = FALSE
   WriteErrKeepsEntry = FALSE
+  AllowFire = FALSE
+  FireRegisters = FALSE
   MaxTry = 2
 INVARIANTS Deadline
 CHECK_DEADLOCK FALSE
